@@ -261,6 +261,37 @@ theorem wide_other_shard_untouched (c : Cfg) (rw : Nat) (idx : Key → Nat) :
       exact hinv _ k hik
     · simp only [wupd, hi, if_false]; exact hinv i k hik
 
+theorem wstepR_some (c : Cfg) (rw : Nat) (idx : Key → Nat) (routable : Key → Bool) (ws ws' : WState) (a : Act)
+    (h : wstepR c rw idx routable ws a = some ws') : routable a.key = true ∧ wstep c rw idx ws a = some ws' := by
+  unfold wstepR at h
+  split at h
+  · rename_i hr; exact ⟨hr, h⟩
+  · cases h
+
+/-- every run of the sharded map with partial routing is a run of the sharded map -/
+theorem wideR_reach (c : Cfg) (rw : Nat) (idx : Key → Nat) (routable : Key → Bool) :
+    ∀ ws, (MWR c rw idx routable).Reach ws → (MW c rw idx).Reach ws := by
+  apply LTS.inv_of_step (MWR c rw idx routable) (fun ws => (MW c rw idx).Reach ws)
+  · exact LTS.Reach.init
+  · intro ws a ws' hinv hstep
+    exact LTS.Reach.step hinv (wstepR_some c rw idx routable ws ws' a hstep).2
+
+/-- a key remap cannot route is unknown to every shard, for ever -/
+theorem wideR_unroutable_untouched (c : Cfg) (rw : Nat) (idx : Key → Nat) (routable : Key → Bool) :
+    ∀ ws, (MWR c rw idx routable).Reach ws → ∀ k, routable k = false → ∀ i, ws i k = KS.init := by
+  apply LTS.inv_of_step (MWR c rw idx routable) (fun ws => ∀ k, routable k = false → ∀ i, ws i k = KS.init)
+  · intro k _ i; rfl
+  · intro ws a ws' hinv hstep k hk i
+    obtain ⟨hr, hw⟩ := wstepR_some c rw idx routable ws ws' a hstep
+    obtain ⟨s', hs, rfl⟩ := wstep_some c rw idx ws _ a hw
+    have hne : k ≠ a.key := fun h => by rw [h, hr] at hk; cases hk
+    by_cases hi : i = idx a.key
+    · subst hi
+      simp only [wupd, if_true]
+      rw [step_other_key c rw _ s' a hs k hne]
+      exact hinv k hk _
+    · simp only [wupd, hi, if_false]; exact hinv k hk i
+
 /-- the sharded map is step for step the single map obtained by reading every key from its shard -/
 theorem wide_step_proj (c : Cfg) (rw : Nat) (idx : Key → Nat) (ws ws' : WState) (a : Act)
     (h : wstep c rw idx ws a = some ws') : step c rw (wproj idx ws) a = some (wproj idx ws') := by
